@@ -1299,7 +1299,10 @@ namespace bloch::compiler {
             if (isTypeAhead()) {
                 std::unique_ptr<Type> targetType = parseType();
                 (void)expect(TokenType::RParen, "Expected ')' after type in cast expression");
-                std::unique_ptr<Expression> operand = parseUnary();
+                // A cast sits at the unary level: its operand is a unary expression, which
+                // includes postfix forms, so '(int) a[i]' casts the element and '(int) f(x)'
+                // casts the call result (binary operators still bind looser than the cast).
+                std::unique_ptr<Expression> operand = parsePrattExpression(kPrefixBindingPower);
                 std::unique_ptr<CastExpression> cast =
                     std::make_unique<CastExpression>(std::move(targetType), std::move(operand));
                 cast->line = lparen.line;
